@@ -1,6 +1,7 @@
 //! Native replay / translator self-test oracle for Engine M jobs on radix-engine: calls the REAL functions
 //! (through the add-only `verif_*` forwarding shims behind the cargo feature radixdlt_radixdlt_scrypto_verif)
 //! with concrete arguments read from stdin, one request per line; prints one result line per request.
+mod mock_api;
 use radix_common::math::*;
 use radix_engine::blueprints::consensus_manager::*;
 use radix_engine::blueprints::pool::v1::v1_1::*;
@@ -436,8 +437,96 @@ fn tsv(a: &[&str]) -> String {
     format!("val {} {} {}", ret, cur, show(t2.get()))
 }
 
+/// ac_run <L> <pa> <pp> <pw> <ra 0|1 untimed|2 timed> <rp> <rt> <rw> <delay_some> <delay> <op> <ip> <now> <cmp>
+/// one transition of the REAL access controller state machine over the scripted MockApi; proposals are identified by
+/// an integer (stored in their timed_recovery_delay_in_minutes field). Prints `ok|err <returned proposal or -> <state>`.
+fn ac_run(a: &[&str]) -> String {
+    use radix_engine::blueprints::access_controller::latest::*;
+    use radix_engine::blueprints::access_controller::*;
+    use radix_engine_interface::blueprints::access_controller::*;
+    use radix_engine_interface::blueprints::resource::{AccessRule, Vault};
+    use radix_common::prelude::*;
+    let n = |i: usize| a[i].parse::<i64>().unwrap();
+    let prop = |id: i64| RecoveryProposal {
+        rule_set: RuleSet {
+            primary_role: AccessRule::AllowAll,
+            recovery_role: AccessRule::AllowAll,
+            confirmation_role: AccessRule::AllowAll,
+        },
+        timed_recovery_delay_in_minutes: Some(id as u32),
+    };
+    let pid = |p: &RecoveryProposal| p.timed_recovery_delay_in_minutes.unwrap() as i64;
+    let mut vault_node = [3u8; NodeId::LENGTH];
+    vault_node[0] = EntityType::InternalFungibleVault as u8;
+    let mut s = AccessControllerV2Substate {
+        controlled_asset: Vault(Own(NodeId(vault_node))),
+        xrd_fee_vault: None,
+        timed_recovery_delay_in_minutes: if n(8) == 1 { Some(n(9) as u32) } else { None },
+        recovery_badge: XRD,
+        state: (
+            if n(0) == 0 { PrimaryRoleLockingState::Unlocked } else { PrimaryRoleLockingState::Locked },
+            if n(1) == 0 {
+                PrimaryRoleRecoveryAttemptState::NoRecoveryAttempt
+            } else {
+                PrimaryRoleRecoveryAttemptState::RecoveryAttempt(prop(n(2)))
+            },
+            if n(3) == 0 {
+                PrimaryRoleBadgeWithdrawAttemptState::NoBadgeWithdrawAttempt
+            } else {
+                PrimaryRoleBadgeWithdrawAttemptState::BadgeWithdrawAttempt
+            },
+            match n(4) {
+                0 => RecoveryRoleRecoveryAttemptState::NoRecoveryAttempt,
+                1 => RecoveryRoleRecoveryAttemptState::RecoveryAttempt(RecoveryRoleRecoveryState::UntimedRecovery(prop(n(5)))),
+                _ => RecoveryRoleRecoveryAttemptState::RecoveryAttempt(RecoveryRoleRecoveryState::TimedRecovery {
+                    proposal: prop(n(5)),
+                    timed_recovery_allowed_after: Instant::new(n(6)),
+                }),
+            },
+            if n(7) == 0 {
+                RecoveryRoleBadgeWithdrawAttemptState::NoBadgeWithdrawAttempt
+            } else {
+                RecoveryRoleBadgeWithdrawAttemptState::BadgeWithdrawAttempt
+            },
+        ),
+    };
+    let mut api = mock_api::MockApi::default();
+    api.answer("get_current_time", &Instant::new(n(12)));
+    api.answer("compare_current_time", &(n(13) == 1));
+    let r = verif_access_controller_transition(&mut s, n(10) as u8, prop(n(11)), &mut api);
+    let (pa, pp) = match &s.state.1 {
+        PrimaryRoleRecoveryAttemptState::NoRecoveryAttempt => (0, 0),
+        PrimaryRoleRecoveryAttemptState::RecoveryAttempt(p) => (1, pid(p)),
+    };
+    let (ra, rp, rt) = match &s.state.3 {
+        RecoveryRoleRecoveryAttemptState::NoRecoveryAttempt => (0, 0, 0),
+        RecoveryRoleRecoveryAttemptState::RecoveryAttempt(RecoveryRoleRecoveryState::UntimedRecovery(p)) => (1, pid(p), 0),
+        RecoveryRoleRecoveryAttemptState::RecoveryAttempt(RecoveryRoleRecoveryState::TimedRecovery {
+            proposal,
+            timed_recovery_allowed_after,
+        }) => (2, pid(proposal), timed_recovery_allowed_after.seconds_since_unix_epoch),
+    };
+    let st = format!(
+        "{} {} {} {} {} {} {} {}",
+        if s.state.0 == PrimaryRoleLockingState::Unlocked { 0 } else { 1 },
+        pa,
+        pp,
+        if s.state.2 == PrimaryRoleBadgeWithdrawAttemptState::NoBadgeWithdrawAttempt { 0 } else { 1 },
+        ra,
+        rp,
+        rt,
+        if s.state.4 == RecoveryRoleBadgeWithdrawAttemptState::NoBadgeWithdrawAttempt { 0 } else { 1 }
+    );
+    match r {
+        Ok(Some(p)) => format!("ok {} {}", pid(&p), st),
+        Ok(None) => format!("ok - {}", st),
+        Err(_) => format!("err - {}", st),
+    }
+}
+
 fn run(a: &[&str]) -> String {
     match a[0] {
+        "ac_run" => ac_run(&a[1..]),
         "tsv" => tsv(&a[1..]),
         "limits_io" | "limits_key" => limits_ops(a),
         "header_v1" | "header_v2_tx" | "header_v2_intent" => header_ops(a),
